@@ -40,7 +40,10 @@ fn find(id: &str) -> Option<&'static dyn Engine> {
 }
 
 fn arg_val<'a>(args: &'a [String], key: &str) -> Option<&'a str> {
-    args.iter().position(|a| a == key).and_then(|i| args.get(i + 1)).map(|s| s.as_str())
+    args.iter()
+        .position(|a| a == key)
+        .and_then(|i| args.get(i + 1))
+        .map(|s| s.as_str())
 }
 
 fn usage() -> i32 {
@@ -57,7 +60,10 @@ fn main() {
 }
 
 fn env_seed() -> u64 {
-    std::env::var("VERIF_SEED").ok().and_then(|s| s.trim().parse::<u64>().ok()).unwrap_or(1)
+    std::env::var("VERIF_SEED")
+        .ok()
+        .and_then(|s| s.trim().parse::<u64>().ok())
+        .unwrap_or(1)
 }
 
 fn real_main(args: &[String]) -> i32 {
@@ -75,10 +81,18 @@ fn real_main(args: &[String]) -> i32 {
                 Some(e) => e,
                 None => return usage(),
             };
-            let tier = arg_val(args, "--tier").and_then(Tier::parse).unwrap_or(Tier::Quick);
-            let seed = arg_val(args, "--seed").and_then(|s| s.parse().ok()).unwrap_or(1);
-            let from = arg_val(args, "--from").and_then(|s| s.parse().ok()).unwrap_or(0);
-            let to = arg_val(args, "--to").and_then(|s| s.parse().ok()).unwrap_or(0);
+            let tier = arg_val(args, "--tier")
+                .and_then(Tier::parse)
+                .unwrap_or(Tier::Quick);
+            let seed = arg_val(args, "--seed")
+                .and_then(|s| s.parse().ok())
+                .unwrap_or(1);
+            let from = arg_val(args, "--from")
+                .and_then(|s| s.parse().ok())
+                .unwrap_or(0);
+            let to = arg_val(args, "--to")
+                .and_then(|s| s.parse().ok())
+                .unwrap_or(0);
             let emit = args.iter().any(|a| a == "--emit-hashes");
             let config = arg_val(args, "--config").unwrap_or("default").to_string();
             runner::worker_main(e, tier, seed, from, to, emit, config)
@@ -101,10 +115,22 @@ fn real_main(args: &[String]) -> i32 {
                 .or_else(|| std::env::var("VERIF_TIER").ok())
                 .and_then(|s| Tier::parse(&s))
                 .unwrap_or(Tier::Quick);
-            let seed = arg_val(args, "--seed").and_then(|s| s.parse().ok()).unwrap_or_else(env_seed);
-            let jobs = arg_val(args, "--jobs").and_then(|s| s.parse().ok()).unwrap_or(16);
+            let seed = arg_val(args, "--seed")
+                .and_then(|s| s.parse().ok())
+                .unwrap_or_else(env_seed);
+            let jobs = arg_val(args, "--jobs")
+                .and_then(|s| s.parse().ok())
+                .unwrap_or(16);
             let runs = arg_val(args, "--runs").and_then(|s| s.parse().ok());
-            let opts = runner::Opts { tier, seed, jobs, runs, emit_hashes: false, write_evidence: !args.iter().any(|a| a == "--no-evidence"), config: None };
+            let opts = runner::Opts {
+                tier,
+                seed,
+                jobs,
+                runs,
+                emit_hashes: false,
+                write_evidence: !args.iter().any(|a| a == "--no-evidence"),
+                config: None,
+            };
             runner::run_check(e, &opts).exit
         }
     }
@@ -113,24 +139,46 @@ fn real_main(args: &[String]) -> i32 {
 /// Run every engine twice (jobs=1 and jobs=16, separate worker processes) over many seeds and
 /// compare the per-run trace hashes and the merged outcome.
 fn selftest_determinism(args: &[String]) -> i32 {
-    let runs: u64 = arg_val(args, "--runs").and_then(|s| s.parse().ok()).unwrap_or(20_000);
+    let runs: u64 = arg_val(args, "--runs")
+        .and_then(|s| s.parse().ok())
+        .unwrap_or(20_000);
     let mut bad = 0;
     for e in engines() {
         for seed in [1u64, 2, 0xdead_beef] {
             let a = runner::run_check(
                 e,
-                &runner::Opts { tier: Tier::Quick, seed, jobs: 1, runs: Some(runs), emit_hashes: true, write_evidence: false, config: None },
+                &runner::Opts {
+                    tier: Tier::Quick,
+                    seed,
+                    jobs: 1,
+                    runs: Some(runs),
+                    emit_hashes: true,
+                    write_evidence: false,
+                    config: None,
+                },
             );
             let b = runner::run_check(
                 e,
-                &runner::Opts { tier: Tier::Quick, seed, jobs: 16, runs: Some(runs), emit_hashes: true, write_evidence: false, config: None },
+                &runner::Opts {
+                    tier: Tier::Quick,
+                    seed,
+                    jobs: 16,
+                    runs: Some(runs),
+                    emit_hashes: true,
+                    write_evidence: false,
+                    config: None,
+                },
             );
             if a.exit == 2 || b.exit == 2 {
                 eprintln!("selftest: harness error for {} seed {}", e.id(), seed);
                 bad += 1;
                 continue;
             }
-            if a.run_hashes != b.run_hashes || (a.run_hashes.len() as u64) < runs || a.exit != b.exit || a.outcome_digest != b.outcome_digest {
+            if a.run_hashes != b.run_hashes
+                || (a.run_hashes.len() as u64) < runs
+                || a.exit != b.exit
+                || a.outcome_digest != b.outcome_digest
+            {
                 eprintln!(
                     "selftest: NON-DETERMINISM for {} seed {}: {} vs {} run hashes, exits {} / {}, outcome digests {:016x} / {:016x}",
                     e.id(),
